@@ -212,6 +212,16 @@ theorem normalizeVec_timelike {r : K → K} (hr : IsSqrt r) (x : Fin (n + 1) →
   obtain ⟨c, hc, h⟩ := mink_normalizeVec hr x
   rw [h]; exact mul_neg_of_pos_of_neg (mul_self_pos.2 hc) hx
 
+theorem sheetSign_mul_self (y : Fin (n + 1) → K) : sheetSign y * sheetSign y = 1 := by
+  unfold sheetSign; split_ifs <;> ring
+
+theorem sheetSign_ne_zero (y : Fin (n + 1) → K) : sheetSign y ≠ 0 := by
+  unfold sheetSign; split_ifs <;> norm_num
+
+/-- changing the sheet of both arguments does not change a Minkowski product -/
+theorem mink_sheet_smul (c : K) (hc : c * c = 1) (a b : Fin (n + 1) → K) : mink (c • a) (c • b) = mink a b := by
+  rw [← bil_minkJ, bil_smul_left, bil_smul_right, bil_minkJ, ← mul_assoc, hc, one_mul]
+
 /-- the first row of the frame completed by `spacelike_to` is timelike whenever `v` is spacelike -/
 theorem spacelikeFrame_timelike {r : K → K} (hr : IsSqrt r) (v : Fin (n + 1) → K) (hv : 0 < mink v v) :
     ∃ t rest, spacelikeFrame r v = t :: rest ∧ mink t t < 0 := by
